@@ -62,6 +62,10 @@ func (ctx *_OpContextType) checkArgImm(xlen int, as abi.As, arg *abi.AsArgument,
 	}
 
 	if ctx.HasShamt {
+		if ctx.Opcode == _OpBase_OP_IMM_32 {
+			// SLLIW/SRLIW/SRAIW shift a 32-bit value: 5 bits also on RV64
+			xlen = 32
+		}
 		switch xlen {
 		case 32:
 			if err := immFitsRange(int64(arg.Imm), _ImmRanges_Shamt32); err != nil {
